@@ -45,19 +45,27 @@ ACTIONS = ["Relax", "Process", "Write", "Load"]
 def model(ctx, cov):
     # (-coverage makes TLC an order of magnitude slower on this operator-heavy module; vacuity is
     # excluded structurally instead: every case must pass through all four phase actions, i.e. the
-    # graph has depth 5 and exactly 5 states per emitted record)
-    r = tlc.run_tlc("MCReloc", "mc/Reloc_full.cfg", workers=8, timeout=900, coverage=False)
+    # graph has depth 5 and exactly 5 states per emitted record).  The four runs are independent.
+    import os
+    from concurrent.futures import ThreadPoolExecutor
+    cfgs = ["mc/Reloc_full.cfg", "mc/Reloc_pairs.cfg", "mc/Reloc_broken.cfg", "mc/Reloc_oldrelax.cfg"]
+    with ThreadPoolExecutor(max_workers=4) as ex:
+        r, rp, rb, ro = list(ex.map(lambda c: tlc.run_tlc("MCReloc", c, workers=3, timeout=900, coverage=False,
+                                                           name=f"MCReloc.{c.split(chr(47))[-1]}.{os.getpid()}"), cfgs))
     if not r.ok:
         raise ToolError(f"Reloc model check failed: {r.violated} {r.error_text} timeout={r.timed_out}\n{r.trace_text[:3000]}{r.out[-800:]}")
     if len(r.records) < 4000 or r.depth != 5 or r.distinct != 5 * len(r.records):
         raise ToolError(f"vacuous Reloc run: {len(r.records)} records, depth {r.depth}, {r.distinct} states "
                         f"(expected Relax/Process/Write/Load taken once per case)")
     runs = [{"cfg": "mc/Reloc_full.cfg", **r.summary(), "records": len(r.records)}]
-    rb = tlc.run_tlc("MCReloc", "mc/Reloc_broken.cfg", workers=8, timeout=900, coverage=False)
     if rb.ok or rb.violated != "InvConform":
         raise ToolError("broken declarative rule was NOT caught by InvConform: the conformance invariant is vacuous")
     runs.append({"cfg": "mc/Reloc_broken.cfg", "expected_violation": rb.violated})
-    rp = tlc.run_tlc("MCReloc", "mc/Reloc_pairs.cfg", workers=8, timeout=900, coverage=False)
+    # the relaxation rules the tree had before 174c817 (REX.W mov of an absolute symbol -> sign-extending
+    # imm32, GOTPCREL mov of an absolute symbol -> lea) must be rejected: they are no accepted deviation
+    if ro.ok or ro.violated != "InvConform":
+        raise ToolError("the old GOT relaxation rules for absolute symbols were NOT rejected by InvConform")
+    runs.append({"cfg": "mc/Reloc_oldrelax.cfg", "expected_violation": ro.violated})
     if not rp.ok or rp.depth != 5 or rp.distinct != 5 * len(rp.records):
         raise ToolError(f"Reloc pairs model check failed: {rp.violated} {rp.error_text} depth={rp.depth}\n{rp.trace_text[:2000]}")
     runs.append({"cfg": "mc/Reloc_pairs.cfg", **rp.summary(), "records": len(rp.records)})
@@ -85,22 +93,31 @@ def select(records, pairs, ctx):
     for rec in records:
         by.setdefault((rec["ref"], rec["out"]), []).append(rec)
     chosen = []
-    for k in sorted(by):
-        n = 1 if k[1] == "staticpie" else 3
+    for j, k in enumerate(sorted(by)):
+        if k[1] == "staticpie" and (j + ctx.seed) % 2:
+            continue                      # libc-based links are ~20x more expensive: half of the strata per seed
+        n = 1 if k[1] == "staticpie" else 2
         chosen += rng.sample(by[k], min(n, len(by[k])))
+    # where the fixed relaxation defects (174c817) used to show: GOT loads of absolute / undefined weak symbols
+    sens = [rec for rec in records if rec["sym"] in ("abs_small", "abs_2g", "abs_4g", "weakundef")
+            and rec["ref"] in ("gotpcrel", "rex_gotpcrelx", "gotpcrelx_mov32") and rec["out"] != "staticpie"]
+    chosen += rng.sample(sens, min(16, len(sens)))
+    sens_sp = [rec for rec in records if rec["sym"] in ("abs_2g", "weakundef") and rec["ref"] in ("gotpcrel", "rex_gotpcrelx")
+               and rec["out"] == "staticpie"]
+    chosen += rng.sample(sens_sp, min(2, len(sens_sp)))
     devs = {}
     for rec in records:
         if rec["dev"]:
             devs.setdefault((rec["dev"], rec["out"] == "staticpie"), []).append(rec)
     for k in sorted(devs):
-        chosen += rng.sample(devs[k], min(1 if k[1] else 4, len(devs[k])))
+        chosen += rng.sample(devs[k], min(1 if k[1] else 3, len(devs[k])))
     seen, out = set(), []
     for rec in chosen:
         key = json.dumps(rec, sort_keys=True)
         if key not in seen:
             seen.add(key)
             out.append(rec)
-    return out, rng.sample(pairs, min(len(pairs), 50))
+    return out, rng.sample(pairs, min(len(pairs), 30))
 
 
 def judge(ctx, results, recs, cov, tag):
